@@ -234,12 +234,12 @@ REASONS = [b'OK', b'Not Found', b'Connection established', b'', None, b'Multi Wo
 
 @st.composite
 def response_spec(draw: Any, *, framings: Tuple[str, ...] = ('cl', 'chunked'), max_body: int = 200,
-                  codes: Any = None, max_headers: int = 6, plain_chunked: bool = False) -> Dict[str, Any]:
+                  codes: Any = None, max_headers: int = 6, plain_chunked: bool = False, strict_reason: bool = False) -> Dict[str, Any]:
     code = draw(st.sampled_from([200, 200, 201, 206, 301, 400, 404, 500, 503, 299, 599]) if codes is None else codes)
     fr = draw(framing(framings, max_body, plain_chunked))
     hs = draw(header_list(0, max_headers))
     spec = {'kind': 'resp', 'version': draw(st.sampled_from([b'HTTP/1.1', b'HTTP/1.1', b'HTTP/1.0'])),
-            'code': b'%d' % code, 'reason': draw(st.sampled_from(REASONS)), 'headers': hs,
+            'code': b'%d' % code, 'reason': draw(st.sampled_from([r for r in REASONS if r is not None] if strict_reason else REASONS)), 'headers': hs,
             'fh_pos': draw(st.integers(0, len(hs)))}
     spec.update(fr)
     return spec
